@@ -449,7 +449,7 @@ def run(ck):
     # the container-level face of defect D2 (theorem C08_same_lock_twice_never_returned) on the real code
     blk = bi.get("c_samelock")
     if blk:
-        rets = [l.split()[-1] for l in blk if l.startswith("s ") and " ret " in l and l.split()[2] == "cas_unlock" and l.split()[3].startswith("qlock")]
+        rets = [l.split()[-1] for l in blk if l.startswith("s ") and " ret " in l and l.split()[2] == "cas_unlock" and l.split()[3].startswith("qlock") and l.split()[-1] != "-"]
         cov["same_lock_twice"] = ("real TaskQueue::get_task/try_get_task on a queue holding a task whose two dependencies are the same (free) lock returned %s: "
                                   "never handed out, as the model proves" % sorted(set(rets)))
     if not ck.quick and not (ck.breaks or mism):
